@@ -158,96 +158,86 @@ static size_t g_jv;              /* victim position inside pu_indexes[g_cv] */
                   (!((x).sum_known && (x).c_valid) || (x).c_val <= (x).total) && \
                   (!((x).sum_known && g_cv < (x).size) || (x).v_val <= (x).total) && \
                   (!((x).sum_known && (x).scan_valid) || ((x).c_valid && (x).c_idx == (x).scan_pos && (x).scan_prefix <= (x).total - (x).c_val)))
-static struct vxvec vxvec_make(size_t n, size_t init)
-{
-  struct vxvec v;
-  v.size = n; v.v_val = init;
-  v.c_valid = false; v.c_idx = 0; v.c_val = 0;
-  v.sum_known = (init == 0); v.total = 0; v.zero_from = 0;
-  v.scan_valid = false; v.scan_pos = 0; v.scan_prefix = 0;
-  return v;
-}
-static size_t vxvec_get(struct vxvec *v, size_t i)
-{
-  VX_ASSERT(i < v->size, "local vector: index within the vector");
-  if (v->c_valid && v->c_idx == i)
-  {
-    /* a scan may start at a cached element 0 */
-    if (i == 0 && v->sum_known && !v->scan_valid && v->c_val <= v->total) { v->scan_valid = true; v->scan_pos = 0; v->scan_prefix = 0; }
-    return v->c_val;
-  }
-  size_t x = (i == g_cv) ? v->v_val : nondet_size();
-  if (v->sum_known)
-  {
-    if (v->scan_valid && v->c_valid && v->c_idx == v->scan_pos && i == v->scan_pos + 1)
-    {
-      v->scan_prefix += v->c_val;
-      v->scan_pos = i;
-    }
-    else if (i == 0) { v->scan_valid = true; v->scan_pos = 0; v->scan_prefix = 0; }
-    else v->scan_valid = false;
-    /* sums of non-negative elements: element <= total, prefix + element <= total */
-    VX_ASSUME(x <= v->total && (!v->scan_valid || v->scan_prefix <= v->total - x));
-  }
-  v->c_valid = true; v->c_idx = i; v->c_val = x;
-  return x;
-}
-static void vxvec_set(struct vxvec *v, size_t i, size_t x)
-{
-  VX_ASSERT(i < v->size, "local vector: index within the vector");
-  if (v->sum_known)
-  {
-    if (i == v->zero_from && x <= SIZE_MAX - v->total) { v->zero_from++; v->total += x; }
-    else v->sum_known = false;
-  }
-  v->scan_valid = false;
-  if (i == g_cv) v->v_val = x;
-  v->c_valid = true; v->c_idx = i; v->c_val = x;
-}
-static void vxvec_inc(struct vxvec *v, size_t i)
-{
-  VX_ASSERT(i < v->size, "local vector: index within the vector");
-  if (v->sum_known)
-  {
-    if (v->total == SIZE_MAX) v->sum_known = false; else v->total++;
-    if (i >= v->zero_from) v->zero_from = v->size;
-  }
-  v->scan_valid = false;
-  if (i == g_cv) v->v_val++;
-  if (v->c_valid && v->c_idx == i) v->c_val++;
-}
+/* The operations are GNU statement-expression macros on the local struct itself: no address of a local vector is ever
+ * taken, which keeps the dfcc write-set instrumentation cheap. */
+#define VXVEC_MAKE(N, INIT) ({ struct vxvec vx_v; size_t vx_init = (INIT); \
+  vx_v.size = (N); vx_v.v_val = vx_init; \
+  vx_v.c_valid = false; vx_v.c_idx = 0; vx_v.c_val = 0; \
+  vx_v.sum_known = (vx_init == 0); vx_v.total = 0; vx_v.zero_from = 0; \
+  vx_v.scan_valid = false; vx_v.scan_pos = 0; vx_v.scan_prefix = 0; \
+  vx_v; })
+#define VXVEC_GET(V, I) ({ size_t vx_i = (I); size_t vx_r; \
+  VX_ASSERT(vx_i < (V).size, "local vector: index within the vector"); \
+  if ((V).c_valid && (V).c_idx == vx_i) \
+  { \
+    /* a scan may start at a cached element 0 */ \
+    if (vx_i == 0 && (V).sum_known && !(V).scan_valid && (V).c_val <= (V).total) { (V).scan_valid = true; (V).scan_pos = 0; (V).scan_prefix = 0; } \
+    vx_r = (V).c_val; \
+  } \
+  else \
+  { \
+    vx_r = (vx_i == g_cv) ? (V).v_val : nondet_size(); \
+    if ((V).sum_known) \
+    { \
+      if ((V).scan_valid && (V).c_valid && (V).c_idx == (V).scan_pos && vx_i == (V).scan_pos + 1) \
+      { \
+        (V).scan_prefix += (V).c_val; \
+        (V).scan_pos = vx_i; \
+      } \
+      else if (vx_i == 0) { (V).scan_valid = true; (V).scan_pos = 0; (V).scan_prefix = 0; } \
+      else (V).scan_valid = false; \
+      /* sums of non-negative elements: element <= total, prefix + element <= total */ \
+      VX_ASSUME(vx_r <= (V).total && (!(V).scan_valid || (V).scan_prefix <= (V).total - vx_r)); \
+    } \
+    (V).c_valid = true; (V).c_idx = vx_i; (V).c_val = vx_r; \
+  } \
+  vx_r; })
+#define VXVEC_SET(V, I, X) ({ size_t vx_i = (I); size_t vx_x = (X); \
+  VX_ASSERT(vx_i < (V).size, "local vector: index within the vector"); \
+  if ((V).sum_known) \
+  { \
+    if (vx_i == (V).zero_from && vx_x <= SIZE_MAX - (V).total) { (V).zero_from++; (V).total += vx_x; } \
+    else (V).sum_known = false; \
+  } \
+  (V).scan_valid = false; \
+  if (vx_i == g_cv) (V).v_val = vx_x; \
+  (V).c_valid = true; (V).c_idx = vx_i; (V).c_val = vx_x; (void) 0; })
+#define VXVEC_INC(V, I) ({ size_t vx_i = (I); \
+  VX_ASSERT(vx_i < (V).size, "local vector: index within the vector"); \
+  if ((V).sum_known) \
+  { \
+    if ((V).total == SIZE_MAX) (V).sum_known = false; else (V).total++; \
+    if (vx_i >= (V).zero_from) (V).zero_from = (V).size; \
+  } \
+  (V).scan_valid = false; \
+  if (vx_i == g_cv) (V).v_val++; \
+  if ((V).c_valid && (V).c_idx == vx_i) (V).c_val++; \
+  (void) 0; })
 
 /* ---- local std::vector<std::vector<std::size_t>> pu_indexes: struct vxvec2 ----
  * outer size; for the victim core g_cv the inner size (v_size) and the element at position g_jv (v_val); the most
  * recently read cell (same cell read twice => same value).  Inner bounds are asserted for the victim core (which is
  * arbitrary). */
 struct vxvec2 { size_t size; size_t v_size; size_t v_val; bool c_valid; size_t c_i, c_j, c_val; };
-static struct vxvec2 vxvec2_make(size_t n)
-{
-  struct vxvec2 v;
-  v.size = n; v.v_size = 0; v.v_val = 0; v.c_valid = false; v.c_i = 0; v.c_j = 0; v.c_val = 0;
-  return v;
-}
-static void vxvec2_push(struct vxvec2 *v, size_t i, size_t x)
-{
-  VX_ASSERT(i < v->size, "pu_indexes[i]: index within the vector");
-  if (i == g_cv)
-  {
-    if (v->v_size == g_jv) v->v_val = x;
-    VX_ASSUME(v->v_size < SIZE_MAX); /* a vector never holds SIZE_MAX elements */
-    v->v_size++;
-  }
-}
-static size_t vxvec2_get(struct vxvec2 *v, size_t i, size_t j)
-{
-  VX_ASSERT(i < v->size, "pu_indexes[i]: index within the vector");
-  VX_ASSERT(i != g_cv || j < v->v_size, "pu_indexes[i][j]: position within the inner vector");
-  g_pi_last_victim = (i == g_cv && j == g_jv);
-  if (g_pi_last_victim) return v->v_val;
-  if (v->c_valid && v->c_i == i && v->c_j == j) return v->c_val;
-  v->c_valid = true; v->c_i = i; v->c_j = j; v->c_val = nondet_size();
-  return v->c_val;
-}
+#define VXVEC2_MAKE(N) ({ struct vxvec2 vx_v; \
+  vx_v.size = (N); vx_v.v_size = 0; vx_v.v_val = 0; vx_v.c_valid = false; vx_v.c_i = 0; vx_v.c_j = 0; vx_v.c_val = 0; \
+  vx_v; })
+#define VXVEC2_PUSH(V, I, X) ({ size_t vx_i = (I); size_t vx_x = (X); \
+  VX_ASSERT(vx_i < (V).size, "pu_indexes[i]: index within the vector"); \
+  if (vx_i == g_cv) \
+  { \
+    if ((V).v_size == g_jv) (V).v_val = vx_x; \
+    VX_ASSUME((V).v_size < SIZE_MAX); /* a vector never holds SIZE_MAX elements */ \
+    (V).v_size++; \
+  } (void) 0; })
+#define VXVEC2_GET(V, I, J) ({ size_t vx_i = (I); size_t vx_j = (J); size_t vx_r; \
+  VX_ASSERT(vx_i < (V).size, "pu_indexes[i]: index within the vector"); \
+  VX_ASSERT(vx_i != g_cv || vx_j < (V).v_size, "pu_indexes[i][j]: position within the inner vector"); \
+  g_pi_last_victim = (vx_i == g_cv && vx_j == g_jv); \
+  if (g_pi_last_victim) vx_r = (V).v_val; \
+  else if ((V).c_valid && (V).c_i == vx_i && (V).c_j == vx_j) vx_r = (V).c_val; \
+  else { (V).c_valid = true; (V).c_i = vx_i; (V).c_j = vx_j; (V).c_val = nondet_size(); vx_r = (V).c_val; } \
+  vx_r; })
 
 /* static_cast<std::size_t>(std::round(static_cast<double>(a) / static_cast<double>(b))): floating point is not modelled.
  * The operands are evaluated (their obligations count), the result is an arbitrary thread count (trusted bound). */
